@@ -10,7 +10,7 @@ INC = -I/verif/shim $(foreach d,common Simplex_tree Persistence_matrix Zigzag_pe
 LDFLAGS_ASAN = $(SAN)
 
 ENGINES_SIMPLE = toplex skbl
-all: $(foreach e,$(ENGINES_SIMPLE),$(BUILD)/$(e)) $(BUILD)/st_hist
+all: $(foreach e,$(ENGINES_SIMPLE),$(BUILD)/$(e)) $(BUILD)/st_hist $(BUILD)/pm_base
 
 $(BUILD)/core.o: /verif/sim/core.cpp /verif/sim/core.h
 	@mkdir -p $(BUILD)
@@ -33,6 +33,25 @@ $(foreach k,$(ST_CFGS_SEQ),$(BUILD)/st_cfg_$(k).o): $(BUILD)/st_cfg_%.o: /verif/
 	@mkdir -p $(BUILD)
 	$(CXX) $(CXXFLAGS_COMMON) $(SAN) $(INC) -DST_CFG=$* -c $< -o $@
 $(BUILD)/st_hist: $(BUILD)/st_hist.o $(BUILD)/core.o $(foreach k,$(ST_CFGS_TBB) $(ST_CFGS_SEQ),$(BUILD)/st_cfg_$(k).o)
+	$(CXX) $(LDFLAGS_ASAN) $^ -o $@
+
+# pm_base: one object per (option family 1..9, column-type group 0..2)
+PMB_OBJS = $(foreach f,1 2 3 4 5 6 7 8 9,$(foreach g,0 1 2,$(BUILD)/pm_base_cfg_$(f)_$(g).o))
+define PMB_RULE
+$(BUILD)/pm_base_cfg_$(1)_$(2).o: /verif/engines/pm_base_cfg.cpp
+	@mkdir -p $(BUILD)
+	$(CXX) $(CXXFLAGS_COMMON) $(SAN) $(INC) -DPMB_FAMILY=$(1) -DPMB_GROUP=$(2) -c $$< -o $$@
+endef
+$(foreach f,1 2 3 4 5 6 7 8 9,$(foreach g,0 1 2,$(eval $(call PMB_RULE,$(f),$(g)))))
+$(BUILD)/pm_base: $(BUILD)/pm_base.o $(BUILD)/core.o $(PMB_OBJS)
+	$(CXX) $(LDFLAGS_ASAN) $^ -o $@
+
+# pm_hist: a few configurations per translation unit
+PMH_TUS = 0 1 2 3 4 5 6 7 8 9 10 11 12 13
+$(foreach k,$(PMH_TUS),$(BUILD)/pm_hist_cfg_$(k).o): $(BUILD)/pm_hist_cfg_%.o: /verif/engines/pm_hist_cfg.cpp
+	@mkdir -p $(BUILD)
+	$(CXX) $(CXXFLAGS_COMMON) $(SAN) $(INC) -DPMH_TU=$* -c $< -o $@
+$(BUILD)/pm_hist: $(BUILD)/pm_hist.o $(BUILD)/core.o $(foreach k,$(PMH_TUS),$(BUILD)/pm_hist_cfg_$(k).o)
 	$(CXX) $(LDFLAGS_ASAN) $^ -o $@
 
 -include $(wildcard $(BUILD)/*.d)
